@@ -108,10 +108,14 @@ result_t TemParamDataType::writeSymbols(const size_t offset, const size_t length
       return RESULT_ERR_EOF;  // input too short
     }
     char* strEnd = nullptr;
-    grp = (unsigned int)strtoul(str, &strEnd, 10);
+    unsigned long parsedGrp = strtoul(str, &strEnd, 10);
     if (strEnd == nullptr || strEnd == str || *strEnd != 0) {
       return RESULT_ERR_INVALID_NUM;  // invalid value
     }
+    if (parsedGrp > 0x1f || *str == '-') {
+      return RESULT_ERR_OUT_OF_RANGE;  // value out of range
+    }
+    grp = (unsigned int)parsedGrp;
     if (input->eof() || !getline(*input, token, '-')) {
       return RESULT_ERR_EOF;  // incomplete
     }
@@ -120,10 +124,14 @@ result_t TemParamDataType::writeSymbols(const size_t offset, const size_t length
       return RESULT_ERR_EOF;  // input too short
     }
     strEnd = nullptr;
-    num = (unsigned int)strtoul(str, &strEnd, 10);
+    unsigned long parsedNum = strtoul(str, &strEnd, 10);
     if (strEnd == nullptr || strEnd == str || *strEnd != 0) {
       return RESULT_ERR_INVALID_NUM;  // invalid value
     }
+    if (parsedNum > 0x7f || *str == '-') {
+      return RESULT_ERR_OUT_OF_RANGE;  // value out of range
+    }
+    num = (unsigned int)parsedNum;
     if (grp > 0x1f || num > 0x7f) {
       return RESULT_ERR_OUT_OF_RANGE;  // value out of range
     }
